@@ -1234,20 +1234,15 @@ class Epoch(object):
         o = iint((11.0 * j + 14.0) / 30.0)
         h = 30 * q + j + 1
         jj = k - o + n - 1
-        # jj is the number of the day in the moslem year h. If jj > 354 we need
-        # to know if h is a leap year
-        if jj > 354:
-            cl = h % 30
-            dl = (11 * cl + 3) % 30
-            if dl < 19:
-                jj -= 354
-                h += 1
-            else:
-                jj -= 355
-                h += 1
-            if jj == 0:
-                jj = 355
-                h -= 1
+        # jj is the number of the day counted from the start of the moslem
+        # year h. Bring it into the range of a year: common years have 354
+        # days, leap years (those with (11*(h mod 30) + 3) mod 30 > 18) have 355
+        while jj < 1:
+            h -= 1
+            jj += 355 if (11 * (h % 30) + 3) % 30 > 18 else 354
+        while jj > (355 if (11 * (h % 30) + 3) % 30 > 18 else 354):
+            jj -= 355 if (11 * (h % 30) + 3) % 30 > 18 else 354
+            h += 1
         # Now, let's convert DOY jj to month and day
         if jj == 355:
             m = 12
